@@ -13,8 +13,8 @@ SYS_RULE = ("sys traces: a real server App and 1..3 real client Apps (MinimalPlu
             "visibility, relations, pre-spawn mappings, max message size), server frames with or without a tick, client frames, per-message "
             "deliveries under six link moods (perfect, reliable channel held back, lossy, reordering, ack starvation, random), disconnects, "
             "server restarts, ticks advanced by more than one at once (ServerTick::increment_by under the manual policy: 2..200, across the 64-tick window and the varint boundary at 128), "
-            "acknowledgement messages nobody owes (indices of no message in flight, from any connected client, authorized or not), and end with a quiescent flush. One case in twelve of profile sys runs a server whose tick starts "
-            "1..30 below u32::MAX and wraps around during the case (header tickbase=; every client has its first update message before anything may overtake it, nobody reconnects): there the lock step "
+            "acknowledgement messages nobody owes (indices of no message in flight, from any connected client, authorized or not), and end with a quiescent flush. One case in twelve of profiles sys and sys_evt runs a server whose tick starts "
+            "1..30 below u32::MAX and wraps around during the case (header tickbase=; every client sees one entity from the start and has its first update message before anything may overtake it, nobody reconnects; the C04 oracles compare ticks in the wrapping order there): there the lock step "
             "with the models, whose ticks are unbounded naturals, is off and the structure, value, visibility and convergence oracles on the implementation decide. After every server frame the real message bytes are decoded with the model's "
             "decoders (Model/Wire.lean) and after every client frame the client's real state (entity map, components, ConfirmHistory, "
             "ServerUpdateTick) is compared with the server snapshot history. distinct_nontrivial = distinct cases with at least one sending "
@@ -60,7 +60,7 @@ PROPS = {
         "assumptions": ['partial: the end-to-end convergence theorem is replaced by per-run theorems + oracle on the implementation + exact model correspondence. Known findings F4 (periodic) and F20 (tick-0 race) are reported, tagged by the trace checker.'],
     },
     "C02": {
-        "modules": ["Replicon.Props.C02", "Replicon.Proofs.WrapClient", "Replicon.Proofs.SentVals", "Replicon.Proofs.UpdateVals", "Replicon.Proofs.FrameVals"],
+        "modules": ["Replicon.Props.C02", "Replicon.Proofs.WrapClient", "Replicon.Proofs.SentVals", "Replicon.Proofs.UpdateVals", "Replicon.Proofs.FrameVals", "Replicon.Proofs.Untouched", "Replicon.Proofs.MutFold", "Replicon.Proofs.FrameServer", "Replicon.Proofs.FramePerfect", "Replicon.Proofs.Belief"],
         "theorems": [
             "Replicon.C02.C02_record_atomic",
             "Replicon.C02.C02_monotone",
@@ -68,6 +68,8 @@ PROPS = {
             "Replicon.C02.C02_ack_on_apply",
             "Replicon.C02.C02_update_changes_only_named_values",
             "Replicon.C02.C02_pending_component_is_named",
+            "Replicon.C02.C02_run_values_perfect_delivery",
+            "Replicon.C02.C02_history_run_values_perfect_delivery",
             "Replicon.C02.C02_tick_decision_across_wrap",
             "Replicon.C02.C02_gate_across_wrap",
             "Replicon.C02.C02_raw_comparison_skips_newer",
@@ -249,13 +251,14 @@ PROPS = {
         "assumptions": ['Known finding F13 (client panic after disconnect under the default protocol check) is reported, tagged by the trace checker. Process crashes are not a notion of this in-memory library: crash points are session cuts.'],
     },
     "C11": {
-        "modules": ["Replicon.Props.C11"],
+        "modules": ["Replicon.Props.C11", "Replicon.Proofs.Belief"],
         "theorems": [
             "Replicon.C11.C11_resend_until_ack",
             "Replicon.C11.C11_ack_sound",
             "Replicon.C11.C11_unknown_ack_noop",
             "Replicon.C11.C11_ack_once",
             "Replicon.C11.C11_idle_silent",
+            "Replicon.C11.C11_history_belief",
         ],
         "profiles": [{"name": "sys", "shards": {"thorough": 8}}, {"name": "sys_split", "shards": {"thorough": 4}},
                      {"name": "sys_auth", "shards": {"thorough": 4}}],
@@ -277,7 +280,7 @@ PROPS = {
             "Replicon.C16.C16_known_finding_F21_witness",
         ],
         "profiles": [{"name": "sys", "shards": {"thorough": 8}}, {"name": "sys_split", "shards": {"thorough": 4}}],
-        "rule": SYS_RULE + LOCK + "For C16: histories with client-side pre-spawned entities, mappings registered in the spawn's tick window, optional client-side despawn before arrival, extra traffic; oracle after quiescence: a replicated entity with a registered mapping to a live pre-spawned entity lands on that entity.",
+        "rule": SYS_RULE + LOCK + "For C16: histories with client-side pre-spawned entities, mappings registered in the spawn's tick window, optional client-side despawn before arrival (and, for an adopted entity that is replicated and visible, in the tick window in which the server despawns it), extra traffic; oracle after quiescence: a replicated entity with a registered mapping to a live pre-spawned entity lands on that entity.",
         "trusted_extra": [
             "modelled, not verified: Bevy ECS (change detection as one logical clock, iteration orders as multisets, required components, observers), "
             "postcard encodings of the harness's component types; the models are compared with the real apps on every message and every client frame",
@@ -296,7 +299,7 @@ PROPS = {
         "const_obligations": ["shape of can_pack and of the split condition in Mutations::send (anchored source patterns)"],
         "profiles": [{"name": "sys_split", "shards": {"thorough": 8}}, {"name": "sys", "shards": {"thorough": 4}}],
         "rule": SYS_RULE + "For C10 (profile sys_split: blob components of 0..400 bytes, max_size in {1,40,120,200,1200} changed mid-run, relation "
-                "graphs through ChildOf with sync_related_entities, relation churn: random sequences of relating / re-parenting / unrelating 4..6 entities so that edge indices of the relation graph are recycled, then every member mutates in one tick against max size 1): (1) model vs implementation: the chunk sequence and header size are read off "
+                "graphs through ChildOf with sync_related_entities, relation churn: random sequences of relating / re-parenting / unrelating 4..6 entities so that edge indices of the relation graph are recycled, then every member mutates in one tick against max size 1; one time in three the server is restarted in between with the relations dissolved while it is down, and every former member changes by 100 bytes against max size 130): (1) model vs implementation: the chunk sequence and header size are read off "
                 "the decoded real mutate messages of a tick and Packing.split must reproduce the real partition into messages exactly; "
                 "(2) oracle: no entity in two messages of a tick, related entities in one message, no message above max_size when every "
                 "chunk fits, one message when everything fits.",
@@ -431,6 +434,8 @@ PROPS = {
                 "compared with the client model's tracker (lock step) and checked by an oracle on the implementation: a tick is reported once per session, only when every mutate message "
                 "the server sent that client for that tick has been applied (= acknowledged), and it is reported as soon as that is the case while the tick is inside the 64-tick window; "
                 "histories with tracking also have reconnects, server restarts (tick back to 0) and ticks advanced by up to 200 at once. "
+                "Per entity, end to end (every sys-based profile): the trace checker keeps for every client and entity the ticks the entity was confirmed for (its confirmed tick at the end of each client frame, taken from the lock-step client model) "
+                "and requires the bit of each of them in the mask of the real ConfirmHistory while it is inside the 64-tick window. "
                 "c12cmp: real RepliconTick::cmp on boundary and random pairs of absolute ticks (residues mod 2^32 go to the code); "
                 "c12ch / c12smt: generated sequences of confirm / contains / contains_any calls on a real ConfirmHistory / "
                 "ServerMutateTicks over absolute ticks (distances 0..3, 31..33, 62..66, 127..129, 2^31-1.., bases around 0, 2^31, 2^32 and "
@@ -481,7 +486,7 @@ MANIFEST_TEXT = {
         "technique": "Lean 4 proof (per-run theorems about executable server/client protocol models) + lock-step model/implementation correspondence on real traces + property oracle on the implementation",
     },
     "C02": {
-        "text": 'Lean theorems about the protocol models: a mutate record is applied to an entity completely (tick + all components) or not at all (C02_record_atomic); it is applied only if newer than the confirmed tick (C02_monotone); what the server sends for an entity contains every every-tick component changed after its belief (C02_record_complete); the client acknowledges exactly the messages it applies (C02_ack_on_apply, the F1 repair). Values: over ALL histories of the joint model and across both models, every record of the CHANGES section of an update message names a server entity and the client model fed the update messages of the session in order has, after applying it, exactly the current server value for every plain component kind the record names (C02_history_update_record_values); every record of the mutate messages of a run carries the current values and a receiver whose entity is confirmed at an older tick has exactly these afterwards, every other value unchanged (C02_mutate_record_values); an update message leaves a plain value alone unless it despawns the entity, removes that kind or has a CHANGES record for the entity naming the kind (C02_update_changes_only_named_values); and a present component of a visible entity is named by the CHANGES record or the mutate record of the entity unless the entity is known at some tick t, is not fresh, and the component was neither added in this tick window nor changed after t with a rate that fires (C02_pending_component_is_named). Across the 32-bit wrap: the wrapping comparison in the code of the message tick with the confirmed tick of the entity, and of the gate, decides as the comparison in the model of unbounded ticks whenever the ticks are less than half the range apart (C02_tick_decision_across_wrap, C02_gate_across_wrap), and the raw u32 comparison does not (C02_raw_comparison_skips_newer, the seeded change C02-e; exhibited on the implementation by the wrap-around cases of profile sys). The history-level statement (C02_truthful_partial) is checked as an oracle on the implementation after every client frame of every trace, with both models in lock step.',
+        "text": 'Lean theorems about the protocol models: a mutate record is applied to an entity completely (tick + all components) or not at all (C02_record_atomic); it is applied only if newer than the confirmed tick (C02_monotone); what the server sends for an entity contains every every-tick component changed after its belief (C02_record_complete); the client acknowledges exactly the messages it applies (C02_ack_on_apply, the F1 repair). Values: over ALL histories of the joint model and across both models, every record of the CHANGES section of an update message names a server entity and the client model fed the update messages of the session in order has, after applying it, exactly the current server value for every plain component kind the record names (C02_history_update_record_values); every record of the mutate messages of a run carries the current values and a receiver whose entity is confirmed at an older tick has exactly these afterwards, every other value unchanged (C02_mutate_record_values); an update message leaves a plain value alone unless it despawns the entity, removes that kind or has a CHANGES record for the entity naming the kind (C02_update_changes_only_named_values); and a present component of a visible entity is named by the CHANGES record or the mutate record of the entity unless the entity is known at some tick t, is not fresh, and the component was neither added in this tick window nor changed after t with a rate that fires (C02_pending_component_is_named). For one run over a link that loses nothing these are put together (C02_run_values_perfect_delivery): from the invariants of the history theorems, a receiver that holds the tracked entities, has each confirmed at an older tick and has the current value of every every-tick plain component not added or changed since the last run ends, after the update message and every record of the mutate messages of the run, with the current value of every every-tick plain component of every entity tracked after the run (the inductive step for values). After any history all server-side hypotheses of that step hold (C02_history_run_values_perfect_delivery: they are the invariants SyncInv, RemInv, KindInv and the belief bound C11_history_belief); the induction over the three remaining hypotheses about the receiver is not proved. Across the 32-bit wrap: the wrapping comparison in the code of the message tick with the confirmed tick of the entity, and of the gate, decides as the comparison in the model of unbounded ticks whenever the ticks are less than half the range apart (C02_tick_decision_across_wrap, C02_gate_across_wrap), and the raw u32 comparison does not (C02_raw_comparison_skips_newer, the seeded change C02-e; exhibited on the implementation by the wrap-around cases of profile sys). The history-level statement (C02_truthful_partial) is checked as an oracle on the implementation after every client frame of every trace, with both models in lock step.',
         "design_ref": "DESIGN.md §7 C02",
         "note": "partial: the invariant relating the server's belief to in-flight messages is not proved as one theorem. Known finding F20 tagged by the trace checker.",
         "technique": "Lean 4 proof (per-run theorems about executable server/client protocol models) + lock-step model/implementation correspondence on real traces + property oracle on the implementation",
@@ -529,7 +534,7 @@ MANIFEST_TEXT = {
         "technique": "Lean 4 proof (per-run theorems about executable server/client protocol models) + lock-step model/implementation correspondence on real traces + property oracle on the implementation",
     },
     "C11": {
-        "text": "Lean theorems about the server model: a component changed after the server's belief is in the run's messages whenever its rate fires (C11_resend_until_ack); acknowledging a registered message moves only the ticks of entities in that message, only forward, exactly to that message's run (C11_ack_sound); unknown / repeated indices change nothing (C11_unknown_ack_noop, C11_ack_once); with nothing pending and nothing to say the run sends nothing (C11_idle_silent).",
+        "text": "Lean theorems about the server model: a component changed after the server's belief is in the run's messages whenever its rate fires (C11_resend_until_ack); acknowledging a registered message moves only the ticks of entities in that message, only forward, exactly to that message's run (C11_ack_sound); unknown / repeated indices change nothing (C11_unknown_ack_noop, C11_ack_once); with nothing pending and nothing to say the run sends nothing (C11_idle_silent). Over ALL histories of the joint model, without any hypothesis on the history: every tick the server takes a tracked entity to be acknowledged at, and the run tick of every mutate message awaiting its acknowledgement, is at most the change tick of the last replication run (C11_history_belief).",
         "design_ref": "DESIGN.md §7 C11",
         "note": "Known finding F15 (16-bit index wrap with 65536 in-flight messages) is a documented design limit outside the theorems' in-flight table (indices are unique per registration within the table).",
         "technique": "Lean 4 proof (per-run theorems about executable server/client protocol models) + lock-step model/implementation correspondence on real traces + property oracle on the implementation",
